@@ -38,12 +38,12 @@ package kernel
 // (d) back in the cache queue (unless the store returned an error).
 //@ func (chain *Chain) cosiSendAnnouncement
 //@   property C24
-//@   trustpre Gap asFinal IsPledging PayloadHash ConsensusThreshold
+//@   trustpre Gap asFinal IsPledging PayloadHash ConsensusThreshold Public determineBestRound updateEmptyHeadRoundAndPersist startNewRoundAndPersist
 //@   requires CosiChainOK(chain) && AggsShape(chain) && VerifiersOK(chain) && !isnil(chain.persistStore)
 //@   requires m != nil && m.Snapshot != nil && m.data != nil && m.data.CN != nil && m.Snapshot.Timestamp < 9223372036854775808
 //@   requires chain.node.Peer != nil
 //@   maypanic
-//@   modifies chain.CosiAggregators, chain.CosiVerifiers, chain.CosiAggregators[..], chain.CosiVerifiers[..], m.Snapshot.RoundNumber, m.Snapshot.References, m.Snapshot.Hash, ghost bytes_cachequeue, ghost store_errors, ghost kernel_graph_state
+//@   modifies chain.CosiAggregators, chain.CosiVerifiers, chain.CosiAggregators[..], chain.CosiVerifiers[..], m.Snapshot.RoundNumber, m.Snapshot.References, m.Snapshot.Hash, ghost bytes_cachequeue, ghost store_errors, ghost kernel_graph_state, ghost storever, chain.State.RoundLinks[..], chain.node.chains.m[..], chain.State.CacheRound, chain.State.FinalRound, chain.State.RoundHistory, chain.State.RoundHistory[..cap], chain.node.GraphTimestamp, chain.FinalIndex, chain.FinalCount
 //@   ensures [no-loss] err == nil && StoreErrors(chain.node.persistStore) == old(StoreErrors(chain.node.persistStore)) ==>
 //@       (forall i int :: {old(m.Snapshot).Transactions[i]} 0 <= i && i < len(old(m.Snapshot).Transactions) ==>
 //@          Guarded(chain.CosiVerifiers, old(m.Snapshot), old(m.Snapshot).Transactions[i]) ||
